@@ -332,3 +332,12 @@ def run(rep, programs):
         rep.note("R-REPLAY-PARTS lookup-covers undecided: the lookup is not written as a guarded `Some(align_down(pfn, 1 << o))` in one body")
         cover_ok, cdesc = True, "undecided: lookup written another way"
     rep.check(cover_ok, rule2, "main|lookup-covers", cdesc, cdesc, b.span)
+    # events recorded within one timestamp keep their recorded order (an allocation before its free): the sort by time is stable
+    et = prog.body("replay::events_from_trace")
+    if et is not None:
+        rep.saw(et.name)
+        sorts = [(bi, callee_name(t["callee"]) or "") for bi, t in et.calls() if "sort" in (callee_name(t["callee"]) or "")]
+        bad = [cn for _, cn in sorts if "unstable" in cn]
+        rep.check(not bad, rule, "events_from_trace|stable-sort", "events are ordered with a stable sort (%s)" % (", ".join(cn for _, cn in sorts) or "no sort"),
+                  "the trace events are sorted with %s: events with equal timestamps (an allocation and its free) can be reordered, the free "
+                  "is then replayed before its allocation and dropped" % ", ".join(bad), et.span)
